@@ -148,6 +148,21 @@ def injections(rng):
         bad = copy.deepcopy(base)
         bad["mapping"]["loop-order"] = {"O": lo}
         yield ("loop-order-projects-into-output", base, bad, "plain", None, None)
+    # more instances: strides, a channel rank, TWO output variables in one access (the projected-into output rank is then missing
+    # from the loop order altogether); every permutation of the loop order in which an output variable's rank is replaced by the
+    # accessed tensor's own rank
+    import itertools
+    fam = [({"I": ["W"], "F": ["S"], "O": ["Q"]}, "O[q] = I[2 * q + s] * F[s]", ["Q", "S"], ["Q"]),
+           ({"I": ["C", "W"], "F": ["C", "S"], "O": ["C", "Q"]}, "O[c, q] = I[c, q + s] * F[c, s]", ["C", "Q", "S"], ["Q"]),
+           ({"I": ["W"], "F": ["S"], "O": ["P", "Q"]}, "O[p, q] = I[p + q + s] * F[s]", ["P", "Q", "S"], ["P", "Q"]),
+           ({"I": ["W"], "F": ["S"], "G": ["Q"], "O": ["Q"]}, "O[q] = I[q + s] * F[s] * G[q]", ["Q", "S"], ["Q"])]
+    for decl_, expr, ranks, outs in fam:
+        base = {"einsum": {"declaration": decl_, "expressions": [expr]}, "mapping": {"loop-order": {"O": list(ranks)}}}
+        for X in outs:
+            for perm in itertools.permutations([("W" if r == X else r) for r in ranks]):
+                bad = copy.deepcopy(base)
+                bad["mapping"]["loop-order"] = {"O": list(perm)}
+                yield ("loop-order-projects-into-output", base, bad, "plain", None, None)
     base = {"einsum": {"declaration": {"A": [K], "Z": [M, N]}, "expressions": ["Z[%s, %s] = A[%s]" % (m, n, k)]}, "mapping": {}}
     for lo in ([K, M + N], [M + N, K]):
         bad = copy.deepcopy(base)
